@@ -275,9 +275,10 @@ def histories_and_near_ends(ck):
         names = {2: ('start', 'end'), 3: ('start', 'control', 'end'), 4: ('start', 'control1', 'control2', 'end')}[len(z1)]
         for first in ('reversed', 'split', 'cropped', 'path.reversed'):
             sg = cls(*z1)
-            sg.length(), sg.point(0.5)
+            sg.length(), sg.point(0.5), sg.bbox(), sg.bpoints(), sg.split(0.5)
             for nm_, w in zip(names, z2):
-                setattr(sg, nm_, w)
+                if getattr(sg, nm_) != w:           # (only what changes is assigned: assigning start / end as well could refresh what a handle assignment forgot)
+                    setattr(sg, nm_, w)
             fresh = cls(*z2)
             ck.case(fp=('seg-history', cls.__name__, str(z1), first), nontrivial=True)
             try:
@@ -320,6 +321,40 @@ def histories_and_near_ends(ck):
                             what='path queried, %s, then cropped(%r, %r) first: %r; a newly built path of the same segments gives %r' % (ename, T0, T1, got, want),
                             case={'edit': ename, 'T0': T0, 'T1': T1}, expected=repr(want), observed=repr(got), driver='history')
                 break
+    # (2b) members that return to their own start are curves, not points: reversing keeps them
+    loop, pin = sp.CubicBezier(1 + 0j, 3 + 2j, 3 - 2j, 1 + 0j), sp.QuadraticBezier(4 + 0j, 4 + 3j, 4 + 0j)
+    for tag_, pth in (('line, loop, line', sp.Path(sp.Line(0j, 1 + 0j), loop, sp.Line(1 + 0j, 4 + 0j), pin, sp.Line(4 + 0j, 6 + 1j))), ('loop alone', sp.Path(loop)), ('hair-pin alone', sp.Path(pin))):
+        ck.case(fp=('loop-member-reversed', tag_), nontrivial=True)
+        try:
+            rv = pth.reversed()
+            ok = len(rv) == len(pth) and abs(rv.length() - pth.length()) <= 1e-9 * pth.length() and all(abs(rv.point(T_) - pth.point(1 - T_)) <= 1e-6 for T_ in (0, 0.2, 0.37, 0.5, 0.81, 1))
+        except Exception as e:      # noqa
+            ok, rv = False, e
+        if not ok:
+            ck.disagree(key='Path.reversed/member-returning-to-its-start', site=site + ':Path.reversed', what='%s: reversed() = %r of %r' % (tag_, rv, pth), case={'path': tag_}, expected='the same members backwards',
+                        observed=repr(rv), driver='history')
+    # (2c) crops of a path far from the origin, ends a few units / a hair away from the joints: where the ends fall does not depend on where the drawing is
+    for off_ in (0j, 1e6 + 2e6j, -4e6 + 5e5j):
+        pth = base().translated(off_) if off_ else base()
+        L_ = pth.length()
+        cum = [0.0]
+        for sg_ in pth:
+            cum.append(cum[-1] + sg_.length())
+        for j_ in (1, 2, 3):
+            for d0, d1 in ((-0.9, 1.3), (0.6, 2.2), (-1.7, -0.4), (1e-3, 0.8), (-0.8, -1e-3)):
+                T0, T1 = (cum[j_] + d0) / L_, (cum[j_] + d1) / L_
+                ck.case(fp=('far-crop', str(off_), j_, d0, d1), nontrivial=True)
+                try:
+                    cr = pth.cropped(T0, T1)
+                    tol_ = 1e-7 + 1e-9 * abs(off_)
+                    ok = abs(cr.start - pth.point(T0)) <= tol_ and abs(cr.end - pth.point(T1)) <= tol_ and abs(cr.length() - pth.length(T0, T1)) <= tol_
+                    got = (cr.start - off_, cr.end - off_, cr.length())
+                except Exception as e:      # noqa
+                    ok, got = False, repr(e)
+                if not ok:
+                    ck.disagree(key='Path.cropped/ends-near-a-joint-far-from-the-origin', site=site + ':Path.cropped', what='path at offset %r: cropped from %g to %g units around joint %d: start, end (minus offset), length = %r; expected %r %r %r' % (
+                        off_, d0, d1, j_, got, pth.point(T0) - off_, pth.point(T1) - off_, d1 - d0), case={'off': str(off_), 'joint': j_, 'd0': d0, 'd1': d1}, expected=d1 - d0, observed=repr(got), driver='history')
+                    break
     # (3) crops that end (start) a hair before (after) the end (start) of a Bezier: no snapping beyond rounding
     for z in ([0j, 40 + 100j, 100 + 0j], [0j, 40 + 100j, 80 - 60j, 100 + 0j], [3 + 1j, 3 + 1j, 9 + 9j, 12 - 3j]):
         sg = make(z)
